@@ -20,6 +20,12 @@ type DrCase struct {
 // readPlan reads from r with the given buffer sizes (cyclically) until an
 // error or until at least stop octets were read.
 func readPlan(r io.Reader, sizes []int, stop int64) ([]byte, error) {
+	return readPlanCap(r, sizes, stop, false)
+}
+
+// readPlanCap: with exact set, never reads past stop octets (used on the BDAT
+// pipe, where how much one Read returns depends on the writer's pieces).
+func readPlanCap(r io.Reader, sizes []int, stop int64, exact bool) ([]byte, error) {
 	var got []byte
 	i := 0
 	for {
@@ -33,6 +39,9 @@ func readPlan(r io.Reader, sizes []int, stop int64) ([]byte, error) {
 		}
 		if sz <= 0 {
 			sz = 1
+		}
+		if exact && stop >= 0 && int64(sz) > stop-int64(len(got)) {
+			sz = int(stop - int64(len(got)))
 		}
 		buf := make([]byte, sz)
 		n, err := r.Read(buf)
